@@ -212,6 +212,8 @@ func runC07(c *Ctx, r *Report) {
 	r.Rule("C07/child-stored", "every command the system transport starts is stored in the transport, where Close finds the process to signal", 1)
 	checkChildStored(c, r, "C07/child-stored")
 	importFoundation(c, r, "C07", "netconf-reader-lifecycle")
+	r.Rule("C07/close-callers", "Channel.Close is called by Open (failure path) and Close methods only (it is not idempotent: a second close panics)", 4)
+	checkCloseCallers(c, r, "C07/close-callers")
 	r.Rule("C07/reader-released", "(restated from C06) Channel.Read looks at the error channel before it dequeues: an operation that is served from the queue alone still takes the pending error, so the reader is never left parked in its send when Close closes that channel", 4)
 	importObligations(r, func(sub *Report) { checkReaderExit(c, sub) }, "C06/reader", "C07/reader-released")
 	r.Rule("C07/globals-immutable", "package-level variables of the library are written only by init functions and inside sync.Once", 1)
